@@ -20,7 +20,7 @@ def run(ctx):
     m = build_multi(ctx)
     mt, meb, mrb = (3, 2, 1) if q else (3, 2, 2)
     ctx.run_shards(m, ["--prop", "C13", "--turns", str(mt), "--eb", str(meb), "--rb", str(mrb)], label="two clients turns=%d eb=%d rb=%d" % (mt, meb, mrb))
-    cfgs = [(4, 2)] if q else [(5, 2), (4, 3), (6, 1)]
+    cfgs = [(4, 3)] if q else [(5, 2), (5, 3), (6, 1)]
     for turns, eb in cfgs:
         ctx.run_shards(b, ["--turns", str(turns), "--eb", str(eb)], label="server io turns=%d eb=%d" % (turns, eb))
     c = ctx.counters
